@@ -695,7 +695,9 @@ func (dr *dirRepo) gc() error {
 			}
 			return errors.Join(errs...)
 		}()
-		if errDir == nil {
+		// the repo no longer exists once the layout file is gone, even if removing the directory itself failed
+		// (e.g. it still contains the directory of a nested repository)
+		if _, err := os.Stat(filepath.Join(dr.path, layoutFile)); errDir == nil || errors.Is(err, fs.ErrNotExist) {
 			dr.exists = false
 		}
 	}
